@@ -13,7 +13,11 @@ LEVEL = "exploration"
 FORMULAS = ["y ~ x + f", "y ~ scale(x) + (x|g)", "y ~ poly(x, 2) + (1|g) + (1|h)", "y ~ center(x):f + (0 + f|g)",
             "y ~ bs(x, df=4) + z", "y ~ x + (x|g) + (1|h)", "y ~ x", "y ~ poly(x, 2) + poly(z, 3)",
             # s is symmetric around 0 in the training frames: a stored parameter that is exactly 0.0
-            "y ~ poly(s, 2) + x", "y ~ center(s) + poly(s, 3)"]
+            "y ~ poly(s, 2) + x", "y ~ center(s) + poly(s, 3)",
+            # a categorical inside a call (the unseen-level policy applies at every evaluation of it)
+            "y ~ C(g) + x + (1|C(h))",
+            # a callee reached through a name that each call binds to its own object (extra_namespace, see do_build)
+            "y ~ tr.f(x) + (tr.f(x)|g)"]
 MODES = ["error", "warning", "silent"]
 
 
@@ -77,8 +81,11 @@ def frame_sig(d):
 
 def do_build(formula, d):
     from formulae import design_matrices
+    from types import SimpleNamespace
+    # 'tr' is bound per call: to tanh-like functions that differ with the frame (told apart by its number of rows / its index)
+    tr = SimpleNamespace(f=np.tanh if isinstance(d.index[0], str) else np.arctan)
     try:
-        dm = design_matrices(formula, d)
+        dm = design_matrices(formula, d, extra_namespace={"tr": tr})
     except Exception as ex:
         return None, f"raise {type(ex).__name__}"
     return dm, {"response": observe(dm.response), "common": observe(dm.common), "group": observe(dm.group)}
@@ -146,6 +153,10 @@ def gen_sequence(rnd, length):
 
 
 TARGETED = [
+    [("config", "silent"), ("build", 10, "A"), ("eval", 0, "common", "n3"), ("config", "error"), ("eval", 0, "common", "n3"),
+     ("config", "warning"), ("eval", 0, "common", "n3"), ("eval", 0, "group", "n4"), ("config", "error"), ("eval", 0, "group", "n4")],
+    [("build", 11, "A"), ("build", 11, "B"), ("eval", 1, "common", "n2"), ("eval", 0, "common", "n1"), ("eval", 1, "group", "n2")],
+    [("build", 11, "B"), ("build", 11, "A"), ("eval", 1, "common", "n1"), ("eval", 0, "group", "n2")],
     [("build", 6, "C"), ("build", 6, "C")],
     [("config", "silent"), ("build", 5, "A"), ("eval", 0, "group", "n3"), ("eval", 0, "group", "n1"), ("eval", 0, "group", "n4")],
     [("config", "silent"), ("build", 2, "A"), ("eval", 0, "group", "n4"), ("eval", 0, "group", "n3"), ("build", 2, "A")],
